@@ -9,7 +9,7 @@ REDUCTIONS = ["dpor", "sdpor", "odpor"]
 class C38(core.Prop):
     id = "C38"
     drivers = ["s4u_interp"]
-    sizes = {"quick": 150, "thorough": 4000}
+    sizes = {"quick": 48, "thorough": 2000}
     max_workers = 8
     technique = ("property-based differential testing (Hypothesis): the set of terminal outcomes and the deadlock/assertion verdict of "
                  "simgrid-mc under every reduction vs an independent all-interleavings reference explorer and vs reduction none")
@@ -17,15 +17,18 @@ class C38(core.Prop):
             "semaphores, condition variables (wait, wait_for), barriers, mailboxes (blocking put/get) and MC_random, run as the application "
             "of simgrid-mc with max-errors:-1; the application prints one OUTCOME line (observations of every actor) when its last actor ends. "
             "Oracle: for reduction in {dpor, sdpor, odpor} (x exploration-algo DFS/BeFS x strategy none/uniform with a drawn rand-seed, drawn per "
-            "case) and for reduction none when the reference counts <= 3000 maximal paths: the SET of distinct OUTCOME lines equals the set of "
+            "case) and for reduction none when the reference counts <= 400 (thorough: 3000) maximal paths: the SET of distinct OUTCOME lines equals the set of "
             "complete terminal outcomes of the reference explorer (vf/refsem.py, model-checker granularity), a deadlock is reported iff the "
             "reference has a reachable deadlock, and the checker ends normally. "
             "Non-trivial: the reference has >=2 complete outcomes, or a reachable deadlock next to a complete outcome.")
     assumptions = ["the reference explorer is itself compared with reduction none on every program small enough",
                    "udpor is not exercised here: it refuses MUTEX_TRYLOCK explicitly and stops early on plain lock/unlock programs (recorded finding)"]
 
+    none_limit = 400      # reduction none runs one application fork per trace: bounded by the reference's path count
+
     def strategy(self, tier):
         big = tier == "thorough"
+        self.none_limit = 3000 if big else 400
         prog = syncgen.programs(kinds=("mutex", "sem", "cond", "barrier", "mailbox", "random"), max_actors=4 if big else 3,
                                 max_ops=8 if big else 6, mc=True, max_mutex=1, max_sem=1, max_cond=1, max_bar=1,
                                 profile="contention")
@@ -51,7 +54,7 @@ class C38(core.Prop):
         if var["strategy"] != "none":
             extra += ["model-check/strategy:" + var["strategy"], "model-check/rand-seed:%d" % var["seed"]]
         reds = list(REDUCTIONS)
-        if ex.npaths <= 3000:
+        if ex.npaths <= self.none_limit:
             reds.append("none")
             oc.labels.append("none-run")
         oc.evals = 0
@@ -71,8 +74,15 @@ class C38(core.Prop):
                        "(rc=%s cpu_exceeded=%s, %d OUTCOME lines printed so far for %d distinct outcomes)"
                        % (res.rc, res.r.cpu_exceeded, res.noutcome_lines, len(res.outcomes)))
                 continue
+            if "failed to connect within" in res.r.err:
+                raise core.Inconclusive()       # simgrid-mc's own 5 s wall-clock limit to start its child: load, not a verdict
+            befs = "befs:" if (var["algo"] != "DFS" and red != "none") else ""
+            if res.crashed and "Actor -1 does not exist in state" in res.r.err:
+                oc.bad("%sabort:actor--1-does-not-exist:%s" % (befs, red), "simgrid-mc reduction %s (%s) aborts: %s"
+                       % (red, extra, [l for l in res.r.err.splitlines() if "does not exist in state" in l][:1]))
+                continue
             if res.crashed:
-                oc.bad("checker-crash:" + red, "simgrid-mc reduction %s (%s) did not end normally (rc=%s cpu_exceeded=%s):\n%s"
+                oc.bad(befs + "checker-crash:" + red, "simgrid-mc reduction %s (%s) did not end normally (rc=%s cpu_exceeded=%s):\n%s"
                        % (red, extra, res.rc, res.r.cpu_exceeded, res.tail()))
                 continue
             if res.no_transition:
@@ -81,12 +91,12 @@ class C38(core.Prop):
             if res.outcomes != ref:
                 missing = sorted(ref - res.outcomes)[:3]
                 extra_o = sorted(res.outcomes - ref)[:3]
-                sig = "outcomes-missed:" if missing else "outcomes-unreachable:"
+                sig = befs + ("outcomes-missed:" if missing else "outcomes-unreachable:")
                 oc.bad(sig + red, "reduction %s (%s): %d distinct outcomes, the reference has %d; missing e.g. %s; not in the reference e.g. %s "
                        "(%d traces explored, reference counts %d maximal paths)" % (red, extra, len(res.outcomes), len(ref), missing, extra_o,
                                                                                      res.traces, ex.npaths))
             if res.deadlock != ref_dl:
-                oc.bad(("deadlock-missed:" if ref_dl else "deadlock-spurious:") + red,
+                oc.bad(befs + ("deadlock-missed:" if ref_dl else "deadlock-spurious:") + red,
                        "reduction %s (%s): deadlock reported=%s, reference reachable deadlock=%s" % (red, extra, res.deadlock, ref_dl))
             if res.assertion != ex.assert_fail:
                 oc.bad("assertion-verdict:" + red, "reduction %s: assertion failure reported=%s, reference=%s" % (red, res.assertion, ex.assert_fail))
